@@ -82,8 +82,7 @@ void ob_c04_roll_axis(const arr_fs<float,N,R>& a, int shift, const std::array<si
         ASSUME(shift > -0x3fffffff && shift < 0x3fffffff);
         int d = (int)dst[ax] - shift;        // no overflow: |dst| < 2^30, |shift| < 2^30
         int want = d % n; if (want < 0) want += n;
-        OBLIGE("C04.roll_axis.srcidx_mod", (long)gx<ax>(src) == (long)want, R, AXIS+10);
-        OBLIGE("C02.roll_axis.srcidx_is_mod", (long)gx<ax>(src) == (long)want, R, AXIS+10);
+        OBLIGE("C04.roll_axis.srcidx_mod|C02.roll_axis.srcidx_is_mod", (long)gx<ax>(src) == (long)want, R, AXIS+10);
         std::array<size_t,R> esrc = dst; esrc[ax] = (size_t)want;
         auto e1 = std::apply([&](auto... i){ return v(i...); }, dst);
         auto e2 = std::apply([&](auto... i){ return a(i...); }, esrc);
